@@ -169,6 +169,54 @@ def size_ok(bound, v, symbolic, depth=0):
     return True
 
 
+def type_lens(ty, v, symbolic, depth=0):
+    """Lengths observed for the SYMBOLIC list lengths (dimension names) of an inferred type."""
+    tn = type(ty).__name__
+    if depth > 8:
+        return
+    if tn == 'ListType' and isinstance(v, list):
+        if ty.length is not None and not isinstance(ty.length, int):
+            symbolic.setdefault('type:' + str(ty.length), set()).add(len(v))
+        for x in v:
+            type_lens(ty.elt, x, symbolic, depth + 1)
+    elif tn == 'TupleType' and isinstance(v, tuple) and len(v) == len(ty.elts):
+        for t1, x in zip(ty.elts, v):
+            type_lens(t1, x, symbolic, depth + 1)
+
+
+def check_result(F, argvals, result):
+    """The returned value against ret_size / the return type, together with the parameters: a dimension name
+    shared by a parameter and the result (or by two parameters) denotes one length in a run."""
+    bad = []
+    symbolic = {}
+    ok = True
+    for arg, v in zip(F.ast.args, argvals):
+        try:
+            d = F.du.find_def_from_site(arg.name, arg)
+        except Exception:  # noqa: BLE001
+            continue
+        if F.sz is not None and d in F.sz.by_def:
+            ok = size_ok(F.sz.by_def[d], v, symbolic) and ok
+        if F.ty is not None and d in F.ty.by_def:
+            type_lens(F.ty.by_def[d], v, symbolic)
+    if F.sz is not None:
+        if not size_ok(F.sz.ret_size, result, symbolic):
+            bad.append({'analysis': 'array_size.ret_size', 'what': 'the returned list does not have its inferred static length',
+                        'node': '<return>', 'fact': str(F.sz.ret_size), 'observed': repr(result)[:200], 'obj': None, 'var': None})
+    if F.ty is not None:
+        rt = F.ty.return_type
+        if not type_ok(rt, result):
+            bad.append({'analysis': 'type_infer.return_type', 'what': 'the returned value does not have the shape of the inferred return type',
+                        'node': '<return>', 'fact': rt.format(), 'observed': repr(result)[:200], 'obj': None, 'var': None})
+        type_lens(rt, result, symbolic)
+    for sv, lens in symbolic.items():
+        if len(lens) > 1:
+            bad.append({'analysis': 'array_size.equal_length' if not sv.startswith('type:') else 'type_infer.equal_length',
+                        'what': 'lists reported equal-length (parameters / returned value) have different lengths',
+                        'node': '<parameters and return>', 'fact': sv, 'observed': str(sorted(lens)), 'obj': None, 'var': None})
+    return bad
+
+
 def carries_list(ty, depth=0) -> bool:
     """Does the inferred type say the value is (or holds) a list?  (A type variable does not: the alias
     analysis makes no claim about values it does not know to be lists.)"""
@@ -281,13 +329,16 @@ def check_trace(F: Facts, events):
                     size_ok(sz_d[d], v, local)
                     for sv, lens in local.items():
                         symbolic.setdefault(sv, set()).update(lens)
+                if d in ty_d:
+                    type_lens(ty_d[d], v, symbolic)
                 if not carries_list(ty_d.get(d)):
                     continue
                 for depth, o in structure:
                     objs.append((name, d, depth, o))
             for sv, lens in symbolic.items():
                 if len(lens) > 1:
-                    add('array_size.equal_length', 'two lists reported equal-length have different lengths', stmt, sv, sorted(lens))
+                    add('type_infer.equal_length' if sv.startswith('type:') else 'array_size.equal_length',
+                        'two lists reported equal-length have different lengths', stmt, sv, sorted(lens))
             if F.al is not None:
                 for i in range(len(objs)):
                     for j in range(i + 1, len(objs)):
